@@ -94,6 +94,7 @@ package filters
 //@ spec func wsByte(b int) bool = b == 0 || b == 9 || b == 10 || b == 12 || b == 13 || b == 32
 //@ func ASCIIHexDecode results (res, err)
 //@   property C05, C02
+//@   flags pure
 //@   loop 0:
 //@     invariant 0 <= i && i <= len(data)
 //@     step white_space_ignored: wsByte(data[prev(i)]) ==> i == prev(i) + 1 && len(result) == prev(len(result))
@@ -115,6 +116,7 @@ package filters
 //@ spec func be32byte(v int, j int) int = mod(div(v, (j == 0 ? 16777216 : (j == 1 ? 65536 : (j == 2 ? 256 : 1)))), 256)
 //@ func ASCII85Decode results (res, err)
 //@   property C05, C02
+//@   flags pure
 //@   loop 0:
 //@     invariant 0 <= i && i <= len(data)
 //@     decreases len(data) - i
@@ -145,3 +147,13 @@ package filters
 //@     split j == 2
 //@     invariant 0 <= j && j <= numBytes && numBytes <= 4 && len(result) == entry(len(result)) + j && (forall k int :: {result[k]} 0 <= k && k < entry(len(result)) ==> result[k] == entry(result)[k]) && (forall k int :: {result[k]} entry(len(result)) <= k && k < len(result) ==> result[k] == be32byte(value, k - entry(len(result))))
 //@     decreases numBytes - j
+
+// zlib inflate + predictor: a deterministic function of the stream bytes and the parameters (assumed: the inflate
+// step is library code; the predictors it ends with are verified above)
+//@ func FlateDecode results (res, err)
+//@   property C05
+//@   flags pure, trusted
+
+//@ func CCITTFaxDecode results (res, err)
+//@   property C05
+//@   flags pure, trusted
